@@ -66,6 +66,9 @@ def gen_points(rng: random.Random, n: int, mode: int) -> List[List[int]]:
         ss = rng.randint(start, end) if rng.random() < 0.6 else rng.randint(0, n - 1)
         rs = rng.randint(0, n - 1)
         re_ = rng.randint(0, n - 1)
+        if rng.random() < 0.25:
+            # the release loop is not used by this mode: its markers may be stale (left over from a longer recording) or filler
+            rs, re_ = [rng.choice([n, n + 1, n + rng.randint(2, 100000), 0xFFFFFF, 0xFFFFFE, 2 * n]) for _ in range(2)]
         pts = [start, ss, end, rs, re_]
     return [[p, fine()] for p in pts]
 
